@@ -439,7 +439,12 @@ func responseBytes(msg *Message) (bytes []byte, err error) {
 	if msg == nil {
 		return NewErrorMessage(ErrSystem).RESPBytes()
 	}
-	return msg.RESPBytes()
+	bytes, err = msg.RESPBytes()
+	if err != nil {
+		log.Errorf("%s/%s %v", PackageName, Version, err)
+		return NewErrorMessage(ErrSystem).RESPBytes()
+	}
+	return bytes, nil
 }
 
 // handleMessage handles a client message.
